@@ -283,6 +283,12 @@ inline Result exec_c04_encode(const Plan& plan, FrameSpec& fs)
         res.fingerprint = fp.h;
         return res;
     }
+    if(rs[1].unsupported)
+    {
+        sim::stats().count("c04.reduced_api_driver.skipped");
+        res.fingerprint = fp.h;
+        return res;
+    }
     if(oc[1].kind != Out::DONE)
     {
         fail(oc[1].kind == Out::HANDLER ? "legal-call-asserted" : std::string("walk-") + sim::out_name(oc[1].kind), "the cursor-based producer ended with " + std::string(sim::out_name(oc[1].kind)) + (oc[1].kind == Out::HANDLER ? std::string(" `") + oc[1].expr + "` in " + oc[1].func : " at offset " + std::to_string(oc[1].off)) + " after " + std::to_string(rs[1].bits) + " writes; the random-access producer completed");
@@ -351,6 +357,13 @@ inline Result exec_c04(const Plan& plan)
     if(plan.geti("by_tag")) sim::stats().count("c04.walks_through_by_tag_accessors");
     Res rs;
     Outcome o = call_driver(drv, rq, rs);
+    if(rs.unsupported)
+    {
+        // fallback build of this schema's driver (its full form does not compile): no walk, no verdict here
+        sim::stats().count("c04.reduced_api_driver.skipped");
+        res.fingerprint = 7;
+        return res;
+    }
     sim::stats().count("c04.walks");
     sim::stats().count("c04.calls", rs.csteps.size());
     fp.add((u64)o.kind);
